@@ -53,6 +53,15 @@ OWN_OPS = {
 }
 
 
+# attribution tables (oracle x kind of the step just executed -> property); engines built on
+# ObjSim extend them with their own step kinds
+TAG_OTHER = {"construct": "C03", "set": "C10", "bind": "C10", "copy": "C09", "misuse": "C11", "restart": "C20", "json_rebuild": "C03", "c_read": "C02", "c_set": "C07", "c_call": "C17"}
+TAG_OUT = {"construct": "C03", "set": "C03", "bind": "C03", "copy": "C03", "misuse": "C11", "restart": "C20", "json_rebuild": "C03", "c_read": "C02", "c_set": "C07", "c_call": "C17"}
+STEP_PROP = {"construct": "C01", "set": "C10", "bind": "C08", "copy": "C09", "misuse": "C11", "restart": "C20", "json_rebuild": "C19", "c_read": "C02", "c_set": "C07", "c_call": "C17"}
+INPLACE_KINDS = {"set", "bind", "misuse", "grow", "grow_until", "raw_alloc", "raw_free", "drop_handle", "c_read", "c_set", "c_call"}
+LAYOUT_PROP = {"set": "C10", "bind": "C08", "misuse": "C11", "c_read": "C02", "c_set": "C07", "c_call": "C17"}
+
+
 def gen_world(rng, profile, tier):
     pf = PROFILES[profile]
     sw = {
@@ -654,7 +663,7 @@ class Step:
         kind = self.kind
         fn = getattr(self, "op_" + kind)
         self.pre = w.bytes_of()
-        self.pre_layout = self.layouts() if kind in ("set", "bind", "misuse", "grow", "grow_until", "raw_alloc", "raw_free", "drop_handle", "c_read", "c_set", "c_call") else None
+        self.pre_layout = self.layouts() if kind in INPLACE_KINDS else None
         for b in w.bufs:
             b._ctl.drain()
         fn()
@@ -699,8 +708,7 @@ class Step:
     def oracle_bytes(self):
         w = self.w
         post = w.bytes_of()
-        tagmap_other = {"construct": "C03", "set": "C10", "bind": "C10", "copy": "C09", "misuse": "C11", "restart": "C20", "json_rebuild": "C03", "c_read": "C02", "c_set": "C07", "c_call": "C17"}
-        tagmap_out = {"construct": "C03", "set": "C03", "bind": "C03", "copy": "C03", "misuse": "C11", "restart": "C20", "json_rebuild": "C03", "c_read": "C02", "c_set": "C07", "c_call": "C17"}
+        tagmap_other, tagmap_out = TAG_OTHER, TAG_OUT
         for i, (a, b) in enumerate(zip(self.pre, post)):
             n = min(len(a), len(b))
             if a[:n] == b[:n]:
@@ -1126,7 +1134,7 @@ class Step:
         w = self.w
         kind = self.kind
         raws = None
-        step_prop = {"construct": "C01", "set": "C10", "bind": "C08", "copy": "C09", "misuse": "C11", "restart": "C20", "json_rebuild": "C19", "c_read": "C02", "c_set": "C07", "c_call": "C17"}
+        step_prop = STEP_PROP
         for o in w.live_objs():
             if self.viols:
                 break
@@ -1194,7 +1202,7 @@ class Step:
                 if lay is not None and post.get(k) is not None and post[k] != lay:
                     a = [x for x in lay if x not in post[k]][:2]
                     b = [x for x in post[k] if x not in lay][:2]
-                    prop = {"set": "C10", "bind": "C08", "misuse": "C11", "c_read": "C02", "c_set": "C07", "c_call": "C17"}.get(kind, "C10")
+                    prop = LAYOUT_PROP.get(kind, "C10")
                     self.viol(prop, "layout_of_existing_object_changed", [kind, self.feat()], f"object {k}: before {a} after {b}")
                     break
 
